@@ -56,6 +56,9 @@ pub mod test_utils;
 pub mod __verif {
     pub use crate::json_ser::Error as JsonSerError;
 
+    /// The connection buffer size limit this build was compiled with.
+    pub const MAX_BUFFER_SIZE: usize = crate::connection::VERIF_MAX_BUFFER_SIZE;
+
     /// Serialize `value` as JSON into `buf` with the built-in serializer; returns the length.
     pub fn json_to_slice<T>(value: &T, buf: &mut [u8]) -> core::result::Result<usize, JsonSerError>
     where
